@@ -1,6 +1,6 @@
 (* props/C51.v — property theorems for C51 (the query API's JSON encodes values losslessly).
    Nothing but statements; proofs are in proof/ApiJsonProofs.v. *)
-From Coq Require Import List ZArith NArith Bool String.
+From Coq Require Import List ZArith NArith Bool String Lia.
 From Verif Require Import lib.Int64 model.ApiJson proof.ApiJsonProofs proof.ApiJsonHistProofs.
 Import ListNotations.
 Open Scope Z_scope.
@@ -54,23 +54,50 @@ Theorem C51_scalar_timestamp_refuted :
 Proof. exact scalar_not_injective. Qed.
 
 (* Histograms (jsonutil.MarshalHistogram over FloatHistogram.AllBucketIterator).
-   Full statement: for every valid histogram h,
-     marshal_histogram fmt eb h = Ok (render_hist fmt count sum (spec_exposed eb h))
-   i.e. the bytes are the canonical rendering {"count":..,"sum":..,"buckets":[[code,lo,hi,n],..]} of
-   count, sum and exactly the non-empty buckets (negative ones in descending index order, the zero
-   bucket, the positive ones) with the boundaries/inclusiveness of their indices.
-   Proved here (_partial) for histograms WITHOUT negative buckets (exponential or custom schema,
-   any spans with non-negative lengths incl. empty spans, any counts incl. negative/NaN/zero, any
-   zero threshold) under the oracle condition idx_ok (getBoundExponential positive) and a zero count
-   that is not negative/NaN. Missing: the reverse iterator over the negative buckets (its agreement
-   with rev (expand ..) is checked by the tie only); negative zero counts are REFUTED below. *)
-Theorem C51_histogram_partial : forall fmt eb h,
+   The bytes written are the canonical rendering {"count":..,"sum":..,"buckets":[[code,lo,hi,n],..]}
+   ("buckets" omitted when there is none) of count, sum and exactly the specification's non-empty
+   buckets spec_exposed: negative buckets in descending index order, the zero bucket, positive buckets;
+   bounds of bucket idx are (bound(idx-1), bound idx] resp. [-bound idx, -bound(idx-1)), clipped at
+   the zero threshold; codes 0/1/3 as documented. Any counts (negative, NaN, -0 included), any
+   span layout with non-negative lengths (empty spans included), any zero threshold.
+   Hypotheses: idx_ok / idxn_ok = the oracle getBoundExponential is positive on the indices used
+   (lower bound may underflow to 0); the zero count is not negative/NaN (that case is refuted below).
+   Exponential schemas: *)
+Theorem C51_histogram_exponential : forall fmt eb h,
+  h_schema h =? custom_schema = false ->
+  spans_ok (h_nspans h) (h_nb h) = true -> nonneg_spans (h_pspans h) ->
+  Forall (fun ic => idxn_ok eb h (fst ic)) (expand (h_nspans h) (h_nb h) 0) ->
+  Forall (fun ic => idx_ok eb h (fst ic)) (expand (h_pspans h) (h_pb h) 0) ->
+  fgt (h_zc h) fzero = fne (h_zc h) fzero ->
+  marshal_histogram fmt eb h = Ok (render_hist fmt (h_count h) (h_sum h) (spec_exposed eb h)).
+Proof. exact marshal_histogram_exp. Qed.
+
+(* Custom-bucket schema (valid such histograms have no negative buckets and no zero bucket), and
+   more generally every histogram without negative buckets: *)
+Theorem C51_histogram_no_negative_buckets : forall fmt eb h,
   h_nb h = [] -> nonneg_spans (h_pspans h) ->
   Forall (fun ic => idx_ok eb h (fst ic)) (expand (h_pspans h) (h_pb h) 0) ->
   (h_schema h =? custom_schema = true -> fgt (h_zc h) fzero = false) ->
   fgt (h_zc h) fzero = fne (h_zc h) fzero ->
   marshal_histogram fmt eb h = Ok (render_hist fmt (h_count h) (h_sum h) (spec_exposed eb h)).
 Proof. exact marshal_histogram_pos_spec. Qed.
+
+(* the reverse bucket iterator enumerates the expansion of a valid span layout backwards *)
+Theorem C51_reverse_iterator : forall ss bs, spans_ok ss bs = true -> rev_iter ss bs = rev (expand ss bs 0).
+Proof. exact rev_iter_expand. Qed.
+
+Example C51_histogram_exponential_nonvacuous :
+  let h := mkHist 0 0 4613937818241073152 0 0 [mkSpan 1 1] [mkSpan 0 2] [4607182418800017408] [4611686018427387904; 0] [] in
+  let eb := fun (_ i : Z) => if i =? -1 then 4602678819172646912 else if i =? 0 then 4607182418800017408 else 4611686018427387904 in
+  h_schema h =? custom_schema = false /\ spans_ok (h_nspans h) (h_nb h) = true /\
+  Forall (fun ic => idxn_ok eb h (fst ic)) (expand (h_nspans h) (h_nb h) 0) /\
+  spec_exposed eb h = [(1, 13830554455654793216, 13826050856027422720, 4611686018427387904);
+                       (3, 9223372036854775808, 0, 4613937818241073152);
+                       (0, 4607182418800017408, 4611686018427387904, 4607182418800017408)].
+Proof.
+  cbv zeta. split; [reflexivity|]. split; [reflexivity|]. split; [|vm_compute; reflexivity].
+  repeat constructor; cbn; first [lia | reflexivity].
+Qed.
 
 (* the forward bucket iterator enumerates exactly the expansion of the spans (all inputs) *)
 Theorem C51_forward_iterator : forall ss bs, nonneg_spans ss -> fwd_iter ss bs = expand ss bs 0.
